@@ -4,10 +4,13 @@ import Sudachi.Proofs.BuildLimits
 /-!
 # C06 — the dictionary compiler is total and never emits an invalid dictionary
 
-Model: `Build.build` (`DictBuilder`: read_conn → read_lexicon → resolve → compile) over the records
-the `csv` reader delivers and the lines of the matrix text, with the writer as a script executed
-against a sink that accepts `limit` bytes.  `Variant.current` is the code as it stands,
-`Variant.repaired` the behaviour after the planned repairs D1–D5 (DESIGN §2.7).
+Model: `Build.build` (`DictBuilder`: ANY sequence of `read_conn` / `read_lexicon` / `resolve` calls
+— `Input.ops`, e.g. several lexicon parts with a `resolve` after some of them — and then `compile`)
+over the records the `csv` reader delivers and the lines of the matrix text, with the writer as a
+script executed against a sink that accepts `limit` bytes.  `Variant.current` is the code as it
+stood, `Variant.repaired` the behaviour after the repairs D1–D5 (DESIGN §2.7) and the repair of the
+builder's `resolved` flag (`Variant.rf`: `read_lexicon` clears it); `Variant.staleFlag` = D1–D5
+repaired, flag as the code has it.
 -/
 namespace C06
 open Build
@@ -25,9 +28,34 @@ def m22 : List (Option Str) :=
 
 def x0 : Ext := ⟨[]⟩
 
+/-- the records of one lexicon text, numbered from line 1 -/
+def part (recs : List (List Str)) : Op := .lex ((List.range recs.length).map (· + 1) |>.zip recs) none
+
+/-- the usual pipeline: read_conn (when there is a matrix) → read_lexicon → resolve → compile -/
 def input (conn : Option (List (Option Str))) (recs : List (List Str)) : Input :=
-  { base := Base.system, conn := conn, recs := (List.range recs.length).map (· + 1) |>.zip recs,
-    csvErr := none, doResolve := true, descLen := 5, trieLen := 1024 }
+  { base := Base.system, ops := (conn.map Op.conn).toList ++ [part recs, .resolve],
+    descLen := 5, trieLen := 1024 }
+
+/-- the inline split unit `あ,名詞,普通名詞,一般,*,*,*,あ` -/
+def inlA : Str :=
+  ['あ', ',', '名', '詞', ',', '普', '通', '名', '詞', ',', '一', '般', ',', '*', ',', '*', ',', '*', ',', 'あ']
+
+/-- a C-mode row whose split-A field is `units` -/
+def rowC (s : Str) (units : Str) : List Str := ((row s ['0'] ['0']).set 14 ['C']).set 15 units
+
+/-- the witness of the stale `resolved` flag: `あ` and `ああ` (inline split `あ/あ`), `resolve()`,
+then a second lexicon text `あああ` (inline split `あ/あ/あ`), compile -/
+def staleInput : Input :=
+  { base := Base.system,
+    ops := [.conn m22, part [row ['あ'] ['0'] ['0'], rowC ['あ', 'あ'] (inlA ++ ['/'] ++ inlA)], .resolve,
+            part [rowC ['あ', 'あ', 'あ'] (inlA ++ ['/'] ++ inlA ++ ['/'] ++ inlA)]],
+    descLen := 5, trieLen := 1024 }
+
+/-- `resolve()` before any lexicon text sets the flag as well -/
+def resolveFirstInput : Input :=
+  { base := Base.system,
+    ops := [.conn m22, .resolve, part [row ['あ'] ['0'] ['0'], rowC ['あ', 'あ'] (inlA ++ ['/'] ++ inlA)]],
+    descLen := 5, trieLen := 1024 }
 
 set_option maxRecDepth 100000
 
@@ -122,48 +150,78 @@ theorem repaired_witnesses :
       = .err .lex .EmptySurface 1 := by
   refine ⟨rfl, rfl, rfl, rfl⟩
 
-/-- **compile_total** (full for the repaired code).  With the four repairs of the panics in place
-(D1 `todo!()`, D2 unchecked matrix index, D4 empty key set, D5 NUL in an indexed surface) the
-compilation of *every* input — any matrix lines, any records, any csv failure, resolve called or
-not, any description and any sink limit — ends in `ok` or `err`, never in a panic: in particular
-the `panic!` branches of `validate_entries` / `validate_wid` are unreachable.  On the code as it
-stands the statement is false: `compile_total_counterexample_d1/_d2/_d4/_d5`. -/
+/-- the `resolved` flag goes stale: with D1–D5 repaired and the flag as the code has it (`resolve`
+sets it, nothing clears it) a second `read_lexicon` with an inline split after `resolve()` passes
+`check_if_resolved` and reaches `panic!("at this point there must not be unresolved splits")` of
+`validate_entries` -/
+theorem compile_total_counterexample_stale_resolved :
+    build Variant.staleFlag x0 staleInput none = .panic .compile .unresolvedSplit := by
+  rfl
+
+/-- the same with `resolve()` called before the only lexicon text -/
+theorem compile_total_counterexample_resolve_first :
+    build Variant.staleFlag x0 resolveFirstInput none = .panic .compile .unresolvedSplit := by
+  rfl
+
+/-- with the flag cleared by `read_lexicon` both are the error `UnresolvedSplits`; calling
+`resolve()` again after the last text compiles (7 resolved units in all) -/
+theorem stale_resolved_repaired :
+    build Variant.repaired x0 staleInput none = .err .compile .UnresolvedSplits 0 ∧
+    build Variant.repaired x0 resolveFirstInput none = .err .compile .UnresolvedSplits 0 ∧
+    ∃ n d, build Variant.repaired x0 { staleInput with ops := staleInput.ops ++ [.resolve] } none = .ok n 5 d := by
+  refine ⟨rfl, rfl, _, _, rfl⟩
+
+/-- **compile_total** (full for the repaired code).  With the repairs of the panics in place
+(D1 `todo!()`, D2 unchecked matrix index, D4 empty key set, D5 NUL in an indexed surface, and the
+`resolved` flag cleared by `read_lexicon`) the compilation of *every* input — ANY sequence of
+`read_conn` / `read_lexicon` / `resolve` calls with any matrix lines, any records, any csv
+failure, then `compile` with any description and any sink limit — ends in `ok` or `err`, never in
+a panic: in particular the `panic!` branches of `validate_entries` / `validate_wid` are
+unreachable.  On the code as it stood the statement is false:
+`compile_total_counterexample_d1/_d2/_d4/_d5`, and with only D1–D5 repaired
+`compile_total_counterexample_stale_resolved`. -/
 theorem compile_total (v : Variant) (x : Ext) (inp : Input) (limit : Option Nat)
-    (h1 : v.d1 = true) (h2 : v.d2 = true) (h4 : v.d4 = true) (h5 : v.d5 = true) :
+    (h1 : v.d1 = true) (h2 : v.d2 = true) (h4 : v.d4 = true) (h5 : v.d5 = true) (hrf : v.rf = true) :
     ∀ s w, build v x inp limit ≠ .panic s w :=
-  build_no_panic x inp limit h1 h2 h4 h5
+  build_no_panic x inp limit h1 h2 h4 h5 hrf
 
 /-- instance for the fully repaired variant -/
 theorem compile_total_repaired (x : Ext) (inp : Input) (limit : Option Nat) :
     ∀ s w, build Variant.repaired x inp limit ≠ .panic s w :=
-  compile_total Variant.repaired x inp limit rfl rfl rfl rfl
+  compile_total Variant.repaired x inp limit rfl rfl rfl rfl rfl
 
 /-- **compile_total** for any variant, in particular the code as it stands (**partial**: the full
-statement is `compile_total`; it is false for `Variant.current`).  Whatever the input, a panic can
-only be one of the matrix reader (stage `conn`: D1, D2) or one of the two panics of the index step
-(D4 when the repair is absent, D5 when the repair is absent): reading the lexicon and resolving
-never panic, and the `panic!` branches of `validate_entries` / `validate_wid` are unreachable. -/
+statement is `compile_total`; it is false for `Variant.current` and `Variant.staleFlag`).  Whatever
+the sequence of calls and their inputs, a panic can only be one of the matrix reader (stage `conn`:
+D1, D2), one of the two panics of the index step (D4 when the repair is absent, D5 when the repair
+is absent) or — when `read_lexicon` does not clear the `resolved` flag — the `panic!` of
+`validate_entries` about an unresolved split: reading the lexicon and resolving never panic, and
+the `panic!` branch of `validate_wid` is unreachable. -/
 theorem compile_total_partial (v : Variant) (x : Ext) (inp : Input) (limit : Option Nat) (s : Stage) (w : PanicWhy)
     (h : build v x inp limit = .panic s w) :
-    s = .conn ∨ (s = .compile ∧ ((w = .emptyKeys ∧ v.d4 = false) ∨ (w = .nulKey ∧ v.d5 = false))) :=
+    s = .conn ∨ (s = .compile ∧ ((w = .emptyKeys ∧ v.d4 = false) ∨ (w = .nulKey ∧ v.d5 = false) ∨
+      (w = .unresolvedSplit ∧ v.rf = false))) :=
   build_panic_kind h
 
 /-! ## success ⇒ valid dictionary -/
 
-/-- what `build` guarantees on success, in terms of the sizes the ids were validated against -/
+/-- what `build` guarantees on success, in terms of the sizes the ids were validated against:
+if `read_conn` was called (anywhere, any number of times) they are the sizes of the matrix that is
+written, otherwise those the builder started with -/
 theorem build_ok_valid {v : Variant} {x : Ext} {inp : Input} {limit : Option Nat} {n cnt : Nat} {d : Dict}
     (h : build v x inp limit = .ok n cnt d) :
     IdsUpper d ∧ (v.d3 = true → RightNonneg d) ∧ RefsOk d ∧
-    (∀ lines, inp.conn = some lines → d.maxLeft = d.conn.nl ∧ d.maxRight = d.conn.nr) ∧
-    (inp.conn = none → d.conn = Conn.empty ∧ d.maxLeft = inp.base.maxLeft ∧ d.maxRight = inp.base.maxRight) := by
+    ((∃ lines, Op.conn lines ∈ inp.ops) → d.maxLeft = d.conn.nl ∧ d.maxRight = d.conn.nr) ∧
+    ((∀ lines, Op.conn lines ∉ inp.ops) →
+      d.conn = Conn.empty ∧ d.maxLeft = inp.base.maxLeft ∧ d.maxRight = inp.base.maxRight) := by
   obtain ⟨b, hp, hc⟩ := (build_ok_iff ..).1 h
   obtain ⟨h1, h2, h3⟩ := compile_ok_valid hc
   obtain ⟨_, _, _, hd⟩ := (compile_ok_iff ..).1 hc
   obtain ⟨_, p2, p3⟩ := prepare_conn hp
   refine ⟨h1, h2, h3, ?_, ?_⟩
-  · intro lines hl
-    have := p2 lines hl
-    subst hd; exact ⟨this.2.1, this.2.2⟩
+  · intro hl
+    have := p2 hl
+    subst hd; exact this
   · intro hn
     have := p3 hn
     subst hd; exact this
@@ -172,12 +230,12 @@ theorem build_ok_valid {v : Variant} {x : Ext} {inp : Input} {limit : Option Nat
 compilation of a dictionary whose matrix was read succeeds, every indexed entry's connection ids
 lie inside the matrix that is written. -/
 theorem compile_valid_ids (v : Variant) (x : Ext) (inp : Input) (limit : Option Nat) (n cnt : Nat) (d : Dict)
-    (h3 : v.d3 = true) (lines : List (Option Str)) (hconn : inp.conn = some lines)
+    (h3 : v.d3 = true) (lines : List (Option Str)) (hconn : Op.conn lines ∈ inp.ops)
     (h : build v x inp limit = .ok n cnt d) :
     ∀ e ∈ d.entries, e.shouldIndex = true →
       0 ≤ e.left ∧ e.left < d.conn.nl ∧ 0 ≤ e.right ∧ e.right < d.conn.nr := by
   obtain ⟨hu, hr, _, hm, _⟩ := build_ok_valid h
-  obtain ⟨m1, m2⟩ := hm lines hconn
+  obtain ⟨m1, m2⟩ := hm ⟨lines, hconn⟩
   intro e he hi
   have := hu e he
   refine ⟨by simpa [Entry.shouldIndex] using hi, by omega, hr h3 e he hi, by omega⟩
@@ -186,11 +244,11 @@ theorem compile_valid_ids (v : Variant) (x : Ext) (inp : Input) (limit : Option 
 statement is `compile_valid_ids`; it fails for `Variant.current`, see
 `compile_valid_counterexample_d3`) -/
 theorem compile_valid_ids_partial (v : Variant) (x : Ext) (inp : Input) (limit : Option Nat) (n cnt : Nat) (d : Dict)
-    (lines : List (Option Str)) (hconn : inp.conn = some lines)
+    (lines : List (Option Str)) (hconn : Op.conn lines ∈ inp.ops)
     (h : build v x inp limit = .ok n cnt d) :
     ∀ e ∈ d.entries, e.shouldIndex = true → 0 ≤ e.left ∧ e.left < d.conn.nl ∧ e.right < d.conn.nr := by
   obtain ⟨hu, _, _, hm, _⟩ := build_ok_valid h
-  obtain ⟨m1, m2⟩ := hm lines hconn
+  obtain ⟨m1, m2⟩ := hm ⟨lines, hconn⟩
   intro e he hi
   have := hu e he
   refine ⟨by simpa [Entry.shouldIndex] using hi, by omega, by omega⟩
@@ -210,7 +268,7 @@ theorem compile_valid_d3_repaired :
 
 /-- user dictionaries: ids are inside the system dictionary's matrix (sizes of `Base`) -/
 theorem compile_valid_ids_user (v : Variant) (x : Ext) (inp : Input) (limit : Option Nat) (n cnt : Nat) (d : Dict)
-    (h3 : v.d3 = true) (hconn : inp.conn = none)
+    (h3 : v.d3 = true) (hconn : ∀ lines, Op.conn lines ∉ inp.ops)
     (h : build v x inp limit = .ok n cnt d) :
     ∀ e ∈ d.entries, e.shouldIndex = true →
       0 ≤ e.left ∧ e.left < inp.base.maxLeft ∧ 0 ≤ e.right ∧ e.right < inp.base.maxRight := by
@@ -240,7 +298,7 @@ theorem compile_valid_limits (v : Variant) (x : Ext) (inp : Input) (limit : Opti
 /-- **compile_valid** (full for the repaired right-id check): all clauses together for a dictionary
 whose matrix was read. -/
 theorem compile_valid (v : Variant) (x : Ext) (inp : Input) (limit : Option Nat) (n cnt : Nat) (d : Dict)
-    (h3 : v.d3 = true) (lines : List (Option Str)) (hconn : inp.conn = some lines)
+    (h3 : v.d3 = true) (lines : List (Option Str)) (hconn : Op.conn lines ∈ inp.ops)
     (h : build v x inp limit = .ok n cnt d) :
     (∀ e ∈ d.entries, e.shouldIndex = true →
       0 ≤ e.left ∧ e.left < d.conn.nl ∧ 0 ≤ e.right ∧ e.right < d.conn.nr) ∧ RefsOk d ∧ LimitsOk d :=
@@ -248,9 +306,15 @@ theorem compile_valid (v : Variant) (x : Ext) (inp : Input) (limit : Option Nat)
    compile_valid_limits v x inp limit n cnt d h⟩
 
 /-- non-vacuity of `compile_valid`: the hypotheses hold for the two-word dictionary -/
-example : ∃ n d, Variant.repaired.d3 = true ∧ (input (some m22) [row ['あ'] ['0'] ['0'], row ['い'] ['1'] ['1']]).conn = some m22 ∧
+example : ∃ n d, Variant.repaired.d3 = true ∧ Op.conn m22 ∈ (input (some m22) [row ['あ'] ['0'] ['0'], row ['い'] ['1'] ['1']]).ops ∧
     build Variant.repaired x0 (input (some m22) [row ['あ'] ['0'] ['0'], row ['い'] ['1'] ['1']]) none = .ok n 0 d :=
-  ⟨_, _, rfl, rfl, rfl⟩
+  ⟨_, _, rfl, List.mem_cons_self, rfl⟩
+
+/-- … and for a lexicon read in two parts with a `resolve()` after each (the second part refers to
+the first by an inline split and by a word id) -/
+example : ∃ n d, Op.conn m22 ∈ ({ staleInput with ops := staleInput.ops ++ [.resolve] } : Input).ops ∧
+    build Variant.repaired x0 { staleInput with ops := staleInput.ops ++ [.resolve] } none = .ok n 5 d :=
+  ⟨_, _, List.mem_cons_self, rfl⟩
 
 /-- the ids as the analyser uses them (`conn.cost(left.right_id, right.left_id)` with the first
 argument bounded by `num_left`, the second by `num_right`) -/
@@ -259,7 +323,7 @@ def UseOk (d : Dict) : Prop :=
 
 /-- with a square matrix validated ids are usable ids -/
 theorem square_use_ok (v : Variant) (x : Ext) (inp : Input) (limit : Option Nat) (n cnt : Nat) (d : Dict)
-    (h3 : v.d3 = true) (lines : List (Option Str)) (hconn : inp.conn = some lines)
+    (h3 : v.d3 = true) (lines : List (Option Str)) (hconn : Op.conn lines ∈ inp.ops)
     (h : build v x inp limit = .ok n cnt d) (hsq : d.conn.nl = d.conn.nr) : UseOk d := by
   intro e he hi
   have := compile_valid_ids v x inp limit n cnt d h3 lines hconn h e he hi
@@ -293,5 +357,20 @@ theorem userdict_dicform_counterexample :
             (row ['大', '阪', '府'] ['1'] ['1']).set 13 ['U', '0']] with base := userBase } none = .ok n 0 d ∧
       ∃ e ∈ d.entries, e.dicForm ≠ WID_INVALID ∧ d.entries.length ≤ e.dicForm :=
   ⟨_, _, rfl, _, List.mem_cons_of_mem _ List.mem_cons_self, by decide, by decide⟩
+
+/-- N3: `read_conn` on a user-dictionary builder replaces the sizes of the system dictionary's
+matrix (here 3×3) the ids are validated against by those of the text it reads (9×9), although the
+analyser connects user words through the system matrix: the row `left_id = 5, right_id = 5`
+compiles (also after the repairs) -/
+theorem userdict_read_conn_counterexample :
+    ∃ n d, build Variant.repaired x0
+        { input (some [some ['9', ' ', '9', '\n']]) [row ['大', '阪'] ['5'] ['5']] with base := userBase } none = .ok n 0 d ∧
+      ∃ e ∈ d.entries, e.shouldIndex = true ∧ ¬ e.left < userBase.maxLeft :=
+  ⟨_, _, rfl, _, List.mem_cons_self, rfl, by decide⟩
+
+/-- non-vacuity of `compile_valid_ids_user`: the usual pipeline without a matrix has no `read_conn` -/
+example : ∀ lines, Op.conn lines ∉ (input none [row ['あ'] ['0'] ['0']]).ops := by
+  intro lines h
+  simp [input, part] at h
 
 end C06
